@@ -47,7 +47,7 @@ fn drive(args: &[String]) {
   let thorough = opt(args, "--tier") == Some("thorough");
   match prop.as_str() {
     "c19" => c19::drive(vectors, corpus, seed, out, thorough),
-    "c02" | "c03" => c03::drive(&prop, vectors, opt(args, "--vectors2"), corpus, seed, out, thorough),
+    "c02" | "c03" | "c04rep" => c03::drive(&prop, vectors, opt(args, "--vectors2"), corpus, seed, out, thorough),
     "c01cli" => c01::drive(vectors, opt(args, "--vectors2"), corpus, seed, out, thorough),
     "c06" | "c07" | "fix" => fix::drive(vectors, opt(args, "--vectors2"), corpus, seed, out, thorough, &prop),
     "c10" => c10::drive(vectors, corpus, seed, out, thorough),
